@@ -128,7 +128,12 @@ fn check_one_desc(rep: &Report, prop: Prop, c: &DescCase, thorough: bool, cen: &
                             case: json!({"desc": c.desc.to_string(), "model": dsx, "world": w.json(), "mode": mode}),
                         });
                     }
-                    continue;
+                    if prop == Prop::C02 {
+                        // for completeness a panic is a failure to produce a satisfaction
+                        Err(miniscript::Error::CouldNotSatisfy)
+                    } else {
+                        continue;
+                    }
                 }
             };
             match r {
